@@ -306,6 +306,8 @@ def trace_props(op, why, viol=None):
         return {"C09"}
     if n == "final_drop":
         return {"C02"}
+    if n in ("drain_all", "into_iter_all"):
+        return {"C10", "C02"}
     if n in ("insert", "insert_key_value", "checked_insert"):
         return {"C01", "C12", "C03"}
     if n in ("get", "get_mut", "contains_key", "index", "index_mut", "remove", "get_key_value", "remove_entry"):
@@ -636,7 +638,7 @@ def jobs_for(pid, tier):
         "C01": shaped(core) + tmap + tbig + thuge + deep("core", ["core"]),
         "C07": shaped(setcore + both("setbulk", ["bulk"], mode="set", consts={"MaxExtra": 1}, bigconsts={"Vers": [0]})) + tset + deep("setcore", ["core"], mode="set"),
         "C09": shaped(both("cursor", ["cursor"])) + shaped(setcore) + tmap + tset + thuge + deep("cursor", ["cursor"]) + deep("setcore", ["core"], mode="set"),
-        "C10": shaped(both("cursor", ["cursor"]) + core) + setcore + tmap + tset + deep("cursor", ["cursor"]) + deep("setcore", ["core"], mode="set"),
+        "C10": shaped(both("cursor", ["cursor"]) + core) + setcore + tmap + tset + thuge + deep("cursor", ["cursor"]) + deep("setcore", ["core"], mode="set"),
         "C11": both("entry", ["entry"]) + tmap + thuge + deep("entry", ["entry"]),
         "C12": core + both("entry", ["entry"]) + setcore + tmap + tset
                # bulk construction over the element shapes too: Extend<&T> (Copy elements only) is reachable with the
